@@ -83,7 +83,7 @@ impl<T: Qcow2IoOps> Qcow2Dev<T> {
         &self,
         reftable: &LockWriteGuard<RefTable>,
         grown_rt: &mut RefTable,
-    ) -> Qcow2Result<()> {
+    ) -> Qcow2Result<(u64, usize)> {
         let info = &self.info;
         let new_rt_clusters = grown_rt.cluster_count(info);
         if new_rt_clusters >= info.rb_entries() - 1 {
@@ -159,9 +159,9 @@ impl<T: Qcow2IoOps> Qcow2Dev<T> {
             .await?;
         }
 
-        self.free_clusters(old_rt_offset, old_rt_clusters).await?;
-
-        Ok(())
+        // The old table is released by the caller once it has dropped the
+        // reftable write lock: free_clusters() takes that lock for reading.
+        Ok((old_rt_offset, old_rt_clusters))
     }
 
     async fn get_reftable_entry(&self, rt_idx: usize) -> RefTableEntry {
@@ -371,12 +371,13 @@ impl<T: Qcow2IoOps> Qcow2Dev<T> {
             reftable.entries(),
             cls.0
         );
+        let mut old_reftable = None;
         if !reftable.in_bounds(rt_index) {
             #[cfg(qcow2_rs_verif)]
             crate::verif::probe("grow:reftable");
             let mut grown_rt = reftable.clone_and_grow(rt_index, rt_clusters, info.cluster_size());
             if !grown_rt.is_update() {
-                self.grow_reftable(&reftable, &mut grown_rt).await?;
+                old_reftable = Some(self.grow_reftable(&reftable, &mut grown_rt).await?);
             }
             *reftable = grown_rt;
         }
@@ -384,6 +385,10 @@ impl<T: Qcow2IoOps> Qcow2Dev<T> {
         // Retry before allocating, maybe something has changed in the meantime
         let rt_entry = reftable.get(rt_index);
         if !rt_entry.is_zero() {
+            drop(reftable);
+            if let Some((off, clusters)) = old_reftable {
+                self.free_clusters(off, clusters).await?;
+            }
             return Ok(rt_entry);
         }
 
@@ -422,6 +427,11 @@ impl<T: Qcow2IoOps> Qcow2Dev<T> {
         .await?;
 
         log::debug!("ensure_refblock: done");
+
+        drop(reftable);
+        if let Some((off, clusters)) = old_reftable {
+            self.free_clusters(off, clusters).await?;
+        }
 
         Ok(rt_e)
     }
